@@ -68,6 +68,10 @@ def run(ctx):
         # array objects: the same probes from every state of the C14 closure
         from . import p_arr
         p_arr.run_c14(ctx, props, stray=True)
+    if not stray:
+        # 70 000 owners of one allocation (reference counts past 2^16)
+        from . import p_big
+        p_big.big_phase(ctx, ["refs:70000"] if ctx.quick else ["refs:70000", "refs:300000"])
     ctx.assumptions += [
         "TLC and the TLA+ text of Contract / LifeOK / StrayAborts in PtrOps.tla are trusted",
         "allocator events and liveness come from the link-time interposer; the clear callback is the driver's",
